@@ -55,308 +55,8 @@ Fixpoint run (c : cache) (ops : list op) : cache * list bool :=
   | o :: r => let '(c1, b) := step c o in let '(c2, bs) := run c1 r in (c2, b :: bs)
   end.
 
-(* --- lemmas --------------------------------------------------------------- *)
-(* potential: number of further Adds for which [h] is guaranteed to stay
-   remembered, provided every capacity in effect is >= W >= 1 *)
-Definition pot (W : nat) (c : cache) (h : N) : nat :=
-  if mem_N h (active c) then S W
-  else if mem_N h (archive c) then S (W - length (active c))
-  else 0.
-
-Lemma mem_cons h x l : mem_N h (x :: l) = N.eqb h x || mem_N h l.
-Proof. reflexivity. Qed.
-
-Lemma add_refuses_iff_pot W c h :
-  cap c <> 0%Z -> (snd (add c h) = false <-> 1 <= pot W c h).
-Proof.
-  intros Hc. unfold add, pot.
-  destruct (Z.eqb_spec (cap c) 0); [contradiction|].
-  destruct (mem_N h (active c)) eqn:Ha; cbn.
-  - split; intros; [lia|reflexivity].
-  - destruct (mem_N h (archive c)) eqn:Hr; cbn; split; intros; try lia; try reflexivity; try discriminate.
-Qed.
-
-Lemma pot_after_add_self W c h : cap c <> 0%Z -> pot W (fst (add c h)) h = S W.
-Proof.
-  intros Hc. unfold add, pot.
-  destruct (Z.eqb_spec (cap c) 0); [contradiction|].
-  destruct (mem_N h (active c)) eqn:Ha; cbn.
-  - rewrite Ha. reflexivity.
-  - destruct (Z.leb _ _); cbn; rewrite N.eqb_refl; reflexivity.
-Qed.
-
-Lemma pot_step_add W c h x :
-  1 <= W -> (Z.of_nat W <= cap c)%Z ->
-  pot W c h <= S (pot W (fst (add c x)) h).
-Proof.
-  intros HN Hcap. unfold add.
-  destruct (Z.eqb_spec (cap c) 0); [lia|].
-  destruct (mem_N x (active c)) eqn:Hx; cbn [fst]; [lia|].
-  unfold pot at 1.
-  destruct (mem_N h (active c)) eqn:Ha.
-  - destruct (Z.leb_spec (cap c) (Z.of_nat (length (active c)))); unfold pot; cbn [active archive].
-    + rewrite mem_cons. cbn [mem_N existsb]. destruct (N.eqb h x); cbn; [lia|].
-      fold (mem_N h (active c)). rewrite Ha. cbn. lia.
-    + rewrite mem_cons, Ha, orb_true_r. lia.
-  - destruct (mem_N h (archive c)) eqn:Hr; [|lia].
-    destruct (Z.leb_spec (cap c) (Z.of_nat (length (active c)))); unfold pot; cbn [active archive].
-    + assert (W - length (active c) = 0) by lia. lia.
-    + rewrite mem_cons, Ha. destruct (N.eqb h x); cbn [orb]; [lia|].
-      rewrite Hr. cbn [length]. lia.
-Qed.
-
-Lemma add_cap c x : cap (fst (add c x)) = cap c.
-Proof.
-  unfold add. destruct (Z.eqb _ _); [reflexivity|].
-  destruct (mem_N x _); [reflexivity|]. destruct (Z.leb _ _); reflexivity.
-Qed.
-
-Definition is_add (o : op) := match o with Add _ => true | _ => false end.
-Definition adds (ops : list op) := length (filter is_add ops).
-(* every capacity in effect during [ops] starting from [c] is >= W.  A Resize
-   above MaxCapacity is rejected and changes nothing, so it is harmless. *)
-Definition caps_ge (W : nat) (c : cache) (ops : list op) : Prop :=
-  (Z.of_nat W <= cap c)%Z /\
-  Forall (fun o => match o with Resize n => (Z.of_nat W <= n)%Z | _ => True end) ops.
-
-Lemma resize_pot W c n h : pot W (fst (resize c n)) h = pot W c h.
-Proof. unfold resize. destruct (_ <? _)%Z; reflexivity. Qed.
-Lemma resize_cap_ge W c n :
-  (Z.of_nat W <= cap c)%Z -> (Z.of_nat W <= n)%Z -> (Z.of_nat W <= cap (fst (resize c n)))%Z.
-Proof. unfold resize. destruct (_ <? _)%Z; cbn; lia. Qed.
-
-Lemma pot_run W c h mid :
-  1 <= W -> caps_ge W c mid ->
-  pot W c h <= adds mid + pot W (fst (run c mid)) h /\ (Z.of_nat W <= cap (fst (run c mid)))%Z.
-Proof.
-  intros HN. revert c. induction mid as [|o r IH]; intros c [Hc HF]; cbn [run].
-  - cbn. lia.
-  - inversion HF as [|? ? Ho HF']; subst.
-    destruct o as [x|n]; cbn [step].
-    + destruct (add c x) as [c1 b] eqn:E.
-      assert (Hc1 : (Z.of_nat W <= cap c1)%Z).
-      { replace c1 with (fst (add c x)) by (rewrite E; reflexivity). rewrite add_cap. exact Hc. }
-      specialize (IH c1 (conj Hc1 HF')).
-      destruct (run c1 r) as [c2 bs] eqn:E2. cbn [fst] in *.
-      pose proof (pot_step_add W c h x HN Hc) as P. rewrite E in P. cbn [fst] in P.
-      unfold adds in *. cbn [filter length is_add]. lia.
-    + destruct (resize c n) as [c1 b] eqn:E.
-      assert (Hc1 : (Z.of_nat W <= cap c1)%Z).
-      { replace c1 with (fst (resize c n)) by (rewrite E; reflexivity). apply resize_cap_ge; assumption. }
-      specialize (IH c1 (conj Hc1 HF')).
-      destruct (run c1 r) as [c2 bs] eqn:E2. cbn [fst] in *.
-      assert (pot W c1 h = pot W c h).
-      { replace c1 with (fst (resize c n)) by (rewrite E; reflexivity). apply resize_pot. }
-      unfold adds in *. cbn [filter is_add]. lia.
-Qed.
-
-Lemma replay_refused_within_N_lemma W c h mid :
-  1 <= W -> caps_ge W c (Add h :: mid) -> adds mid <= W ->
-  let c1 := fst (step c (Add h)) in
-  let c2 := fst (run c1 mid) in
-  snd (step c2 (Add h)) = false.
-Proof.
-  intros HN [Hc HF] Hm c1 c2. inversion HF as [|? ? _ HF']; subst.
-  assert (Hc0 : cap c <> 0%Z) by lia.
-  assert (Hc1 : (Z.of_nat W <= cap c1)%Z).
-  { unfold c1. cbn [step]. rewrite add_cap. exact Hc. }
-  destruct (pot_run W c1 h mid HN (conj Hc1 HF')) as [P Hc2].
-  unfold c1 in P at 1. cbn [step] in P. rewrite (pot_after_add_self W c h Hc0) in P.
-  cbn [step]. subst c2. apply (add_refuses_iff_pot W); lia.
-Qed.
-
-(* outputs of the [Add h] operations of a history *)
-Fixpoint outs_of (h : N) (ops : list op) (outs : list bool) : list bool :=
-  match ops, outs with
-  | Add x :: r, b :: bs => if N.eqb x h then b :: outs_of h r bs else outs_of h r bs
-  | _ :: r, _ :: bs => outs_of h r bs
-  | _, _ => []
-  end.
-
-Lemma pot_le W c h : pot W c h <= S W.
-Proof. unfold pot. destruct (mem_N _ _); [lia|]. destruct (mem_N _ _); lia. Qed.
-
-(* once remembered with enough potential, every further presentation is refused *)
-Lemma all_refused W c h ops :
-  1 <= W -> caps_ge W c ops -> adds ops <= pot W c h ->
-  Forall (fun b => b = false) (outs_of h ops (snd (run c ops))).
-Proof.
-  intros HN. revert c. induction ops as [|o r IH]; intros c [Hc HF] Hp; cbn [run].
-  - constructor.
-  - inversion HF as [|? ? Ho HF']; subst.
-    destruct o as [x|n]; cbn [step].
-    + destruct (add c x) as [c1 b] eqn:E.
-      assert (Hc1 : (Z.of_nat W <= cap c1)%Z).
-      { replace c1 with (fst (add c x)) by (rewrite E; reflexivity). rewrite add_cap. exact Hc. }
-      assert (Hc0 : cap c <> 0%Z) by lia.
-      unfold adds in Hp. cbn [filter is_add length] in Hp. fold (adds r) in Hp.
-      destruct (run c1 r) as [c2 bs] eqn:E2. cbn [snd outs_of].
-      destruct (N.eqb_spec x h) as [->|Hne].
-      * constructor.
-        { pose proof (proj2 (add_refuses_iff_pot W c h Hc0)) as R. rewrite E in R. apply R. lia. }
-        replace bs with (snd (run c1 r)) by (rewrite E2; reflexivity).
-        apply IH; [split; assumption|].
-        replace c1 with (fst (add c h)) by (rewrite E; reflexivity).
-        rewrite pot_after_add_self by exact Hc0. pose proof (pot_le W c h). lia.
-      * replace bs with (snd (run c1 r)) by (rewrite E2; reflexivity).
-        apply IH; [split; assumption|].
-        pose proof (pot_step_add W c h x HN Hc) as P. rewrite E in P. cbn [fst] in P. lia.
-    + destruct (resize c n) as [c1 b] eqn:E.
-      assert (Hc1 : (Z.of_nat W <= cap c1)%Z).
-      { replace c1 with (fst (resize c n)) by (rewrite E; reflexivity). apply resize_cap_ge; assumption. }
-      destruct (run c1 r) as [c2 bs] eqn:E2. cbn [snd outs_of].
-      replace bs with (snd (run c1 r)) by (rewrite E2; reflexivity).
-      apply IH; [split; assumption|].
-      replace c1 with (fst (resize c n)) by (rewrite E; reflexivity). rewrite resize_pot.
-      unfold adds in *. cbn [filter is_add] in Hp. exact Hp.
-Qed.
-
-(* --- provenance invariant: everything remembered was added earlier --------- *)
-Definition remembered (c : cache) (h : N) : Prop := In h (active c) \/ In h (archive c).
-
-Lemma add_remembered c x h :
-  remembered (fst (add c x)) h -> remembered c h \/ h = x.
-Proof.
-  unfold add, remembered. destruct (Z.eqb _ _); [tauto|].
-  destruct (mem_N x (active c)); [tauto|].
-  destruct (Z.leb _ _); cbn; intuition.
-Qed.
-Lemma resize_remembered c n h : remembered (fst (resize c n)) h <-> remembered c h.
-Proof. unfold resize, remembered. destruct (_ <? _)%Z; cbn; tauto. Qed.
-
-Lemma add_false_remembered c h : snd (add c h) = false -> remembered c h.
-Proof.
-  unfold add, remembered. destruct (Z.eqb _ _); [discriminate|].
-  destruct (mem_N h (active c)) eqn:Ha; cbn.
-  - intros _. left. apply mem_N_In. exact Ha.
-  - destruct (mem_N h (archive c)) eqn:Hr; [|discriminate].
-    intros _. right. apply mem_N_In. exact Hr.
-Qed.
-
-Definition hashes_of (ops : list op) : list N :=
-  flat_map (fun o => match o with Add h => [h] | _ => [] end) ops.
-
-Lemma run_remembered c ops h :
-  remembered (fst (run c ops)) h -> remembered c h \/ In h (hashes_of ops).
-Proof.
-  revert c. induction ops as [|o r IH]; intros c; cbn [run].
-  - cbn. tauto.
-  - destruct o as [x|n]; cbn [step].
-    + destruct (add c x) as [c1 b] eqn:E. specialize (IH c1).
-      destruct (run c1 r) as [c2 bs]. cbn [fst] in *. intros H.
-      destruct (IH H) as [H1|H1]; [|right; cbn; right; exact H1].
-      replace c1 with (fst (add c x)) in H1 by (rewrite E; reflexivity).
-      apply add_remembered in H1 as [H1| ->]; [left; exact H1 | right; cbn; left; reflexivity].
-    + destruct (resize c n) as [c1 b] eqn:E. specialize (IH c1).
-      destruct (run c1 r) as [c2 bs]. cbn [fst] in *. intros H.
-      destruct (IH H) as [H1|H1]; [|right; exact H1].
-      left. replace c1 with (fst (resize c n)) in H1 by (rewrite E; reflexivity).
-      apply resize_remembered in H1. exact H1.
-Qed.
-
-Lemma disabled_add c h : cap c = 0%Z -> add c h = (c, true).
-Proof. intros H. unfold add. rewrite H. reflexivity. Qed.
-
-(* --- fresh handshakes and the single winner -------------------------------- *)
-Lemma add_fresh_true c h : ~ remembered c h -> snd (add c h) = true.
-Proof.
-  intros H. destruct (snd (add c h)) eqn:E; [reflexivity|].
-  exfalso. apply H. apply add_false_remembered. exact E.
-Qed.
-
-Definition winner_shape (l : list bool) : Prop :=
-  l = [] \/ exists r, l = true :: r /\ Forall (fun b => b = false) r.
-
-Lemma one_winner W c h ops :
-  1 <= W -> caps_ge W c ops -> adds ops <= S W -> ~ remembered c h ->
-  winner_shape (outs_of h ops (snd (run c ops))).
-Proof.
-  intros HW. revert c. induction ops as [|o r IH]; intros c [Hc HF] Ha Hfresh; cbn [run].
-  - left. reflexivity.
-  - inversion HF as [|? ? Ho HF']; subst.
-    destruct o as [x|n]; cbn [step].
-    + destruct (add c x) as [c1 b] eqn:E.
-      assert (Hc1 : (Z.of_nat W <= cap c1)%Z).
-      { replace c1 with (fst (add c x)) by (rewrite E; reflexivity). rewrite add_cap. exact Hc. }
-      assert (Hc0 : cap c <> 0%Z) by lia.
-      unfold adds in Ha. cbn [filter is_add length] in Ha. fold (adds r) in Ha.
-      destruct (run c1 r) as [c2 bs] eqn:E2. cbn [snd outs_of].
-      replace bs with (snd (run c1 r)) by (rewrite E2; reflexivity).
-      destruct (N.eqb_spec x h) as [->|Hne].
-      * right. exists (outs_of h r (snd (run c1 r))). split.
-        { f_equal. replace b with (snd (add c h)) by (rewrite E; reflexivity).
-          apply add_fresh_true. exact Hfresh. }
-        apply (all_refused W); [exact HW | split; assumption |].
-        replace c1 with (fst (add c h)) by (rewrite E; reflexivity).
-        rewrite pot_after_add_self by exact Hc0. lia.
-      * apply IH; [split; assumption | lia |].
-        intros R. replace c1 with (fst (add c x)) in R by (rewrite E; reflexivity).
-        apply add_remembered in R as [R|R]; [exact (Hfresh R) | congruence].
-    + destruct (resize c n) as [c1 b] eqn:E.
-      assert (Hc1 : (Z.of_nat W <= cap c1)%Z).
-      { replace c1 with (fst (resize c n)) by (rewrite E; reflexivity). apply resize_cap_ge; assumption. }
-      destruct (run c1 r) as [c2 bs] eqn:E2. cbn [snd outs_of].
-      replace bs with (snd (run c1 r)) by (rewrite E2; reflexivity).
-      apply IH; [split; assumption | unfold adds in *; cbn [filter is_add] in Ha; exact Ha |].
-      intros R. replace c1 with (fst (resize c n)) in R by (rewrite E; reflexivity).
-      apply resize_remembered in R. exact (Hfresh R).
-Qed.
-
-(* --- refusals only on a collision with an earlier presentation ------------- *)
-Lemma run_app c a b :
-  run c (a ++ b) = let '(c1, o1) := run c a in let '(c2, o2) := run c1 b in (c2, o1 ++ o2).
-Proof.
-  revert c. induction a as [|o r IH]; intros c; cbn [run app].
-  - destruct (run c b). reflexivity.
-  - destruct (step c o) as [c1 x]. rewrite IH. destruct (run c1 r) as [c2 o1].
-    destruct (run c2 b). reflexivity.
-Qed.
-
-Lemma refused_only_if_seen c pre h :
-  snd (step (fst (run c pre)) (Add h)) = false ->
-  remembered c h \/ In h (hashes_of pre).
-Proof.
-  cbn [step]. intros H. apply add_false_remembered in H. apply run_remembered. exact H.
-Qed.
-
 (* the level of the API: (key id, salt) presentations *)
 Inductive hop := HAdd (id salt : bytes) | HResize (n : Z).
 Definition lower (o : hop) : op :=
   match o with HAdd id salt => Add (pre_hash id salt) | HResize n => Resize n end.
 Definition empty_cache (capacity : Z) := {| cap := capacity; active := []; archive := [] |}.
-
-Lemma refused_only_if_collision_lemma capacity pre id salt :
-  snd (step (fst (run (empty_cache capacity) (map lower pre))) (lower (HAdd id salt))) = false ->
-  exists id' salt', In (HAdd id' salt') pre /\ pre_hash id' salt' = pre_hash id salt.
-Proof.
-  intros H. apply refused_only_if_seen in H as [[[]|[]]|H].
-  unfold hashes_of in H. apply in_flat_map in H as [o [Ho Hin]].
-  apply in_map_iff in Ho as [ho [<- Hho]].
-  destruct ho as [id' salt'|n]; cbn in Hin; [|contradiction].
-  destruct Hin as [E|[]]. exists id', salt'. split; [exact Hho | exact E].
-Qed.
-
-Lemma disabled_accepts_all_lemma c ops :
-  cap c = 0%Z -> Forall (fun o => is_add o = true) ops ->
-  fst (run c ops) = c /\ Forall (fun b => b = true) (snd (run c ops)).
-Proof.
-  intros Hc. induction ops as [|o r IH]; intros HF; cbn [run].
-  - split; [reflexivity | constructor].
-  - inversion HF as [|? ? Ho HF']; subst. destruct o as [x|n]; [|discriminate].
-    cbn [step]. rewrite (disabled_add c x Hc). specialize (IH HF').
-    destruct (run c r) as [c2 bs]. cbn in *. destruct IH as [-> IH]. split; [reflexivity|].
-    constructor; [reflexivity | exact IH].
-Qed.
-
-(* non-vacuity: concrete histories meeting the hypotheses *)
-Example replay_window_example :
-  snd (step (fst (run (fst (step (empty_cache 2) (Add 7))) [Add 1; Add 2])) (Add 7))%N = false.
-Proof. reflexivity. Qed.
-Example caps_ge_example : caps_ge 2 (empty_cache 2) [Add 7; Add 1; Resize 5; Add 2]%N.
-Proof. split; [cbn; lia|]. repeat constructor; cbn; lia. Qed.
-Example one_winner_example :
-  outs_of 7 [Add 7; Add 1; Add 7; Add 7]%N (snd (run (empty_cache 3) [Add 7; Add 1; Add 7; Add 7]%N))
-  = [true; false; false].
-Proof. reflexivity. Qed.
-Example pre_hash_example : pre_hash [1;2;3;4;5]%N [16;32]%N = be32 [20;34;3;4]%N.
-Proof. reflexivity. Qed.
